@@ -79,7 +79,9 @@ def check_once(ctx, cls, info):
                 # the loop must run over the whole hand-out container
                 it = e[1]
                 cont = it[len("range(len("):-2] if it.startswith("range(len(") and it.endswith("))") else it
-                whole = is_plain_container(cont) and all(x[1] in ("EACH(%s)" % it, "%s[EACH(%s)]" % (cont, it)) for x in evs)
+                if cont.startswith("enumerate(") and cont.endswith(")") and "," not in cont:
+                    cont = cont[len("enumerate("):-1]       # for k, cell in enumerate(L): the cells are the elements of L
+                whole = is_plain_container(cont) and all(x[1] in ("EACH(%s)" % it, "EACH(%s)" % cont, "%s[EACH(%s)]" % (cont, it)) for x in evs)
                 ctx.ob("R04-ONCE", whole, cls.file, qual, "loop over %s covers every handed-out cell" % it,
                        "iterates the whole container %s" % cont if whole else
                        "the crediting loop iterates '%s' and credits %s: not every cell of the handed-out chain is credited" % (it, [x[1] for x in evs]),
